@@ -258,7 +258,25 @@ func R08(group string) Rule {
 					"range deletion is dominated by the ok-edge of the lookup of the same family name in the live family map",
 					"DeleteFromColumn reaches the deletion without the family having been found in the table's live family map")
 			}
-			searches := scopeCallsTo(scope, "sort", "Search")
+			var searches []*ssa.Call
+			for _, sc := range scopeCallsTo(scope, "sort", "Search") {
+				// interval searches over a column's cells: the predicate closure reads a cell timestamp
+				if cl := closureOf(sc.Call.Args[1]); cl != nil {
+					readsTs := false
+					for _, b := range cl.Blocks {
+						for _, in := range b.Instrs {
+							if fa, ok := in.(*ssa.FieldAddr); ok && core.TypeIs(fa.X.Type(), pkgBtpb, "Cell") {
+								if _, f, _ := core.FieldName(fa); f == "TimestampMicros" {
+									readsTs = true
+								}
+							}
+						}
+					}
+					if readsTs {
+						searches = append(searches, sc)
+					}
+				}
+			}
 			if len(searches) < 2 {
 				c.Unknown("R08", "applyMutations/DeleteFromColumn/searches", fn.Pos(), "expected two sort.Search calls (interval ends), found %d", len(searches))
 			}
